@@ -74,9 +74,16 @@ def timeout(tier):
     return 420 if tier == "quick" else 2400
 
 
+ZONES = ["[+0:UTC]", "[-5:EST]", "[+5.30:IST]", "[-11]", ""]
+CLOCK = {"zone": 0, "hours": False}  # how this history's server spells its profile dates (set per history; generations stay ordered)
+
+
 def dt_text(n):
-    """n-th generation date (days after 2010-01-01 encoded in the day-of-year fields, kept simple: years)."""
-    return f"{2010 + n:04d}0101000000.000[+0:UTC]"
+    """n-th generation date: n years (or, for some histories, n hours) after 2010-01-01 00:00 in the history's zone."""
+    z = ZONES[CLOCK["zone"]]
+    if CLOCK["hours"]:
+        return f"201006{1 + n // 24:02d}{n % 24:02d}0000.000{z}"
+    return f"{2010 + n:04d}0101000000.000{z}"
 
 
 def asked_date(body):
@@ -110,6 +117,8 @@ def run_history(ctx, net, seq, fresh, variant):
     from ofxtools.Client import OFXClient
 
     clear_cache()
+    CLOCK.update(zone=(variant + len(seq) * 2 + (1 if fresh else 0)) % len(ZONES), hours=(variant + len(seq)) % 2 == 1)
+    ctx.add("profile_date_spellings", f"{ZONES[CLOCK['zone']] or 'no zone'}/{'hours' if CLOCK['hours'] else 'years'} apart")
     sent = []  # bodies of every profile this server has sent: (generation, bytes)
     state = {"gen": 0, "held": None}  # model: held = (gen, bytes) newest accepted
     step_rec = {}
@@ -136,6 +145,12 @@ def run_history(ctx, net, seq, fresh, variant):
         if b == "error":
             return Reply(ofxserver.profile_error(2000 + variant))
         if b == "garbage":
+            k = variant + len(sent) + len(seq)
+            if k % 3 == 0:
+                # tempting garbage: status 0, a NEWER date, well-formed - but not a profile by the data model
+                kind = ofxserver.INVALID_KINDS[(k // 3) % len(ofxserver.INVALID_KINDS)]
+                ctx.count("garbage_wellformed_but_invalid")
+                return Reply(ofxserver.profile_invalid(kind, dt_text(state["gen"] + 1), URL + "/svc", URL, finame="BAD", v1=k % 2 == 1))
             return Reply(ofxserver.GARBAGE[(variant + len(sent)) % len(ofxserver.GARBAGE)])
         return Reply(exc=transport_error())
 
@@ -235,6 +250,7 @@ def seq_monitor(ctx, net):
             run_history(ctx, net, seq, rng.choice([False, True, "alternate"]), variant=j % 5)
             ctx.count("seq_histories")
             ctx.distinct(("seq6", tuple(seq), j))
+    CLOCK.update(zone=0, hours=False)
 
 
 # ------------------------------------------------------------------ 2. crash points
